@@ -99,12 +99,17 @@ def detect(a):
     return db.detect_bonds(a)
 
 
-def check(elements, pos, cell, ctx, st, radii, nonmetals, what, metamorphic_rng=None):
+def check(elements, pos, cell, ctx, st, radii, nonmetals, what, metamorphic_rng=None, int_cell=0):
     exp, via, margin = ref_bonds(elements, pos, cell, radii, nonmetals)
     if margin < 1e-9:
         st.count("gray_discarded")
         return None
-    a = make_atoms(elements, pos, cell)
+    cell_given = cell
+    if cell is not None and int_cell:
+        # the same cell written with integers (nested list or integer array), as a user typing Atoms(cell=[[10,0,0],...]) does
+        cell_given = [[int(v) for v in row] for row in cell] if int_cell == 1 else np.array(cell, dtype=int)
+        st.count("integer_cells")
+    a = make_atoms(elements, pos, cell_given)
     got = np.asarray(detect(a)).reshape(-1, 2)
     st.count("detections_checked")
     rows = [tuple(int(v) for v in r) for r in got]
@@ -187,13 +192,17 @@ def run_case(case, ctx):
     if rng.integers(2):
         common = ["C", "H", "O", "N", "Zr", "Cu", "Zn"]
         elements = [common[int(i)] for i in rng.integers(0, len(common), n)]
+    int_cell = 0
     if kind is None:
         cell = None
         pos = rng.uniform(-4, 4, (n, 3))
     else:
         cell = rand_cell(rng, kind, 6.2, 11.0)
+        if case["s"] % 3 == 0:
+            cell = np.round(cell)            # integer-valued cell, handed over with an integer dtype
+            int_cell = 1 + case["s"] % 2
         pos = rng.uniform(0, 1, (n, 3)).dot(cell)
-    r = check(elements, pos, cell, ctx, st, radii, nonmetals, "random %s structure" % (kind or "cell-free"), metamorphic_rng=rng)
+    r = check(elements, pos, cell, ctx, st, radii, nonmetals, "random %s structure%s" % (kind or "cell-free", " (integer cell)" if int_cell else ""), metamorphic_rng=rng, int_cell=int_cell)
     st.seen("random_cell_class", str(kind))
     if r is not None:
         exp, via, margin = r
@@ -215,6 +224,8 @@ def requirements(stats, tier):
         need.append("only %d (side x faces crossed x cell) classes of the 16 observed" % stats.nseen("pair_class"))
     if stats.get("expected_bonds_via_image_only") < 50:
         need.append("too few image-only bonds in random structures")
+    if stats.get("integer_cells") < 10:
+        need.append("cells given with integer entries: %d" % stats.get("integer_cells"))
     if stats.nseen("random_cell_class") < 3:
         need.append("random structures did not cover no-cell/ortho/tri")
     return need
